@@ -55,12 +55,13 @@ FIRST_CONTACT_R4 = {
 }
 
 
-def table_r3(root):
+def table_r3(root, tag="-r3"):
     rows = []
+    first = 0
     full = part = 0
     tgt_und = 0
     for d in sorted(os.listdir(root)):
-        if "-r3" not in d:
+        if tag not in d:
             continue
         mp = os.path.join(root, d, "meta.json")
         if not os.path.isfile(mp):
@@ -73,19 +74,30 @@ def table_r3(root):
             full += 1
         if m["property"] in und:
             tgt_und += 1
-        rows.append("| %s | %s | %d | %s | %s |" % (d, m["property"], len(m.get("clean_for", [])), " ".join(und) or "-", (m.get("what") or "").replace("|", "/")[:110]))
-    print("| refactoring | written for | checks silent and decided | checks answering undecided | what it is |")
-    print("|---|---|---|---|---|")
+        fc = m.get("false_alarms_at_first_contact")
+        if fc:
+            first += 1
+        extra = " %s |" % (" ".join(fc) or "-") if fc is not None else ""
+        rows.append("| %s | %s | %d | %s |%s %s |" % (d, m["property"], len(m.get("clean_for", [])), " ".join(und) or "-", extra, (m.get("what") or "").replace("|", "/")[:110]))
+    if tag == "-r5":
+        print("| refactoring | written for | checks silent and decided | checks answering undecided | false alarms at first contact | what it is |")
+        print("|---|---|---|---|---|---|")
+    else:
+        print("| refactoring | written for | checks silent and decided | checks answering undecided | what it is |")
+        print("|---|---|---|---|---|")
     print("\n".join(rows))
     print()
+    if tag == "-r5":
+        print("%d of these refactorings were reported as a violation by at least one check when first run; each report was a false alarm and was removed by generalising the rule." % first)
+        print()
     print("%d refactorings: %d decided clean by all 20 checks, %d with at least one undecided answer (the target property's own check undecided for %d); none is reported as a violation." % (full + part, full, part, tgt_und))
 
 
 def main():
     rnd = sys.argv[1] if len(sys.argv) > 1 else "r2"
     root = os.path.join(HERE, "seeded")
-    if rnd == "r3":
-        return table_r3(root)
+    if rnd in ("r3", "r5"):
+        return table_r3(root, "-" + rnd)
     first = FIRST_CONTACT_R4 if rnd == "r4" else FIRST_CONTACT_R2
     rows = []
     for d in sorted(os.listdir(root)):
